@@ -145,8 +145,9 @@ PROPS = {
              assumptions=["accesses inside uninstrumented libstdc++ / libc are invisible to the detector", "the scheduler draws its switch decisions from a PRNG seeded by the plan (schedseed) while the run "
                           "proceeds; replay is exact because the yield-point sequence is a function of plan and code"],
              variant="sched", sanitizers="none (own scheduler + happens-before detector; TSan sees nothing under a serialising scheduler)",
-             expect_probes=["scheduled-run", "preempted-inside-library", "ten-or-more-switches"],
-             phases=[{"tag": "sched", "bin": "simcheck", "wrap": [], "share": 0.85, "shrink": 60},
+             expect_probes=["scheduled-run", "preempted-inside-library", "ten-or-more-switches", "instances-interleaved-on-one-thread", "neighbour-instance-frames"],
+             phases=[{"tag": "sched", "bin": "simcheck", "wrap": [], "share": 0.7, "shrink": 60},
+                     {"tag": "instances", "variant": "asan", "bin": "simcheck", "wrap": [], "share": 0.15, "shrink": 60},
                      {"tag": "tsan-free-running", "variant": "tsan", "bin": "simcheck", "wrap": [], "share": 0.15, "advisory": True, "tiers": ["thorough"], "workers": 4}]),
 }
 
